@@ -936,7 +936,12 @@ func c19Ranges(w *c19World, rng *zz.RNG, nRandom int) []c19Range {
 	bound := B.Epoch * c19EpochLen
 	u := func(v uint64) string { return strconv.FormatUint(v, 10) }
 	var rs []c19Range
-	add := func(kind string, lo, hi uint64) { rs = append(rs, c19Range{kind, lo, u(hi)}) }
+	add := func(kind string, lo, hi uint64) {
+		if lo < a0 && lo >= A.Epoch*c19EpochLen {
+			lo = a0 // never the first block of the mid-epoch fixture (see above): a gap right behind it would pull it in
+		}
+		rs = append(rs, c19Range{kind, lo, u(hi)})
+	}
 	add("single-first-block-A", a0, a0)
 	add("single-last-block-A", ak, ak)
 	add("single-first-block-B", b0, b0)
